@@ -11,7 +11,7 @@ src=$(readlink -f "$1"); sid=$2; prop=$3; extra=${4:-}
 S=/dev/shm/seed.$$; mkdir -p $S
 trap 'rm -rf $S' EXIT
 # the demonstrations name their author's worktree; make them use the current directory instead
-sed -E "s#'/tmp/wt/a[0-9]+'#__import__('os').getcwd()#g" "$src/demo.py" > $S/demo.py
+sed -E "s#'/tmp/wt/[ab][0-9]+'#__import__('os').getcwd()#g" "$src/demo.py" > $S/demo.py
 rsync -a --exclude .git --exclude '*.pyc' --exclude __pycache__ /repo/ $S/clean/
 rsync -a $S/clean/ $S/repo/
 if ! (cd $S/repo && patch -p1 -s < "$src/patch.diff"); then echo "PATCH-FAILED"; exit 3; fi
